@@ -192,6 +192,30 @@ def run(tier):
                     found = True
                     rep.finding("class/orphan-at-eof", "a marker without its operand at the end of the input was not rejected (opt %d): %r -> %s" % (opt, d, a[:80]),
                                 {"kind": "read", "config": cfg, "opt": opt, "input_hex": C.hexs(d), "expected": ["UNEXPECTED_EOF", "INVALID_SYNTAX", "INVALID_DISCARD", "UNTERMINATED_COLLECTION"], "observed": a[:300]})
+        # a tag without operand is rejected whatever the options: registry (8) with passthrough / unwrap (+2) / error (+4)
+        # default mode, tag registered or not
+        tdocs = [b"[1 #foo]", b"(#foo)", b"[[1 2 #a/b] 3]", b"{:a #foo}", b"#{#foo}", b"[1 #id]", b"[#id #foo]", b"[#foo #id]", b"#foo ]", b"[1 #inst ]", b"{#foo}",
+                 b"[#_ #foo]", b"[#foo #_ 1]", b"#foo #_ 1"]
+        for opt in (8, 10, 12):
+            to, tcr = K.run_impl(cfg, K.read_lines(tdocs, opt))
+            tm, _ = K.run_model(cfg, K.read_lines(tdocs, opt))
+            rep.count("orphan-tags/%s/opt%d" % (cfg, opt), len(tdocs))
+            for d, a, b in zip(tdocs, to, tm):
+                if a is None:
+                    continue
+                if a != b:
+                    rep.broken_obligation("correspondence/orphan-tag-options", "model %r vs code %r on %r (options %d)" % (b, a, d, opt), False)
+                if not a.startswith("err "):
+                    found = True
+                    rep.finding("class/orphan-tag-options", "a tag without operand was not rejected with options %d: %r -> %s" % (opt, d, a[:80]),
+                                {"kind": "read", "config": cfg, "opt": opt, "input_hex": C.hexs(d), "expected": ["INVALID_SYNTAX", "UNEXPECTED_EOF", "INVALID_DISCARD", "UNMATCHED_DELIMITER", "UNKNOWN_TAG"], "observed": a[:300]})
+        # Clojure flag: a ratio followed by anything but a terminator is INVALID_NUMBER, whether or not it reduces to an integer
+        if cfg in ("clj", "both"):
+            for ratio in (b"4/2", b"6/3", b"-9/3", b"10/5", b"1/2", b"3/4", b"0/5", b"22222222222222222222/2", b"4/22222222222222222222"):
+                for junk in (b"x", b".5", b"abc", b"e3", b"N", b"M", b"/2", b"_", b"'", b":a"):
+                    for ctx in (b"%s", b"[%s]", b"[%s 1]", b"{:n %s}"):
+                        sdocs.append(ctx.replace(b"%s", ratio + junk))
+                        sexps.append("INVALID_NUMBER")
         # identifiers containing '::' are INVALID_SYNTAX wherever the colons sit and however much input follows
         for pre in (b"", b"a", b"abc", b"abcdefghijklmn", b"abcdefghijklmno", b"abcdefghijklmnop", b"abcdefghijklmnopqrstuvwxyz0123456789"):
             for kwp in (b"", b":"):
@@ -214,7 +238,7 @@ def run(tier):
             got = a.split(" ")[1] if a.startswith("err ") else a.split(" ")[0]
             if got != sexps[i]:
                 found = True
-                rep.finding("class/" + ("stray-closer-after-discard" if sexps[i] == "UNMATCHED_DELIMITER" else "double-colon"),
+                rep.finding("class/" + ("stray-closer-after-discard" if sexps[i] == "UNMATCHED_DELIMITER" else ("ratio-junk" if sexps[i] == "INVALID_NUMBER" else "double-colon")),
                             "expected %s, got %s for %r" % (sexps[i], a[:80], sdocs[i]),
                             {"kind": "read", "config": cfg, "opt": 0, "input_hex": C.hexs(sdocs[i]), "expected": [sexps[i]], "observed": a[:300]})
         rep.note_cases(len(sdocs), set(sdocs))
